@@ -375,32 +375,33 @@ const C90: F = -4.371139e-8;
 
 // The inverse() obligations are bounded stand-ins on CONCRETE transforms (no symbolic input; every symbolic formulation of the
 // Gauss-Jordan elimination timed out, DESIGN.md C09): each decides "inverse() does not panic and inverse ∘ m = m ∘ inverse = I"
-// for one matrix, exactly where all intermediate values are dyadic, within 1e-6 per element for the quarter turns.
+// for one matrix, within 1e-6 per element (the property states no tolerance; where all intermediate values are dyadic the code's
+// result is in fact exact, but the obligations do not pin that, so that another correct elimination order cannot raise an alarm).
 // @ob props=C09 tier=quick kind=B cfg=core-std timeout=1200
 // @fn Mat4x4::inverse ; Mat4x4::determinant ; Matrix::compose
 // @bound one concrete transform: scale(-1, 2, 0.5) followed by translate(3, -5, 7) (negative determinant)
-// @clause the inverse of a mirrored non-uniform scaling with translation exists (no panic although the determinant is negative) and composed with the original gives exactly the identity in both orders
-inverse_harness!(mat_inverse_mirrored_scale_translate, [[-1.0, 0.0, 0.0, 3.0], [0.0, 2.0, 0.0, -5.0], [0.0, 0.0, 0.5, 7.0], [0.0, 0.0, 0.0, 1.0]], 0.0);
+// @clause the inverse of a mirrored non-uniform scaling with translation exists (no panic although the determinant is negative) and composed with the original gives the identity in both orders (within 1e-6 per element)
+inverse_harness!(mat_inverse_mirrored_scale_translate, [[-1.0, 0.0, 0.0, 3.0], [0.0, 2.0, 0.0, -5.0], [0.0, 0.0, 0.5, 7.0], [0.0, 0.0, 0.0, 1.0]], 1e-6);
 // @ob props=C09 tier=quick kind=B cfg=core-std timeout=1200
 // @fn Mat4x4::inverse ; Matrix::compose
 // @bound one concrete transform: the uniform scaling by -2 (determinant -8)
-// @clause the inverse of a negative uniform scaling exists and is two-sided, exactly
-inverse_harness!(mat_inverse_negative_uniform_scale, [[-2.0, 0.0, 0.0, 0.0], [0.0, -2.0, 0.0, 0.0], [0.0, 0.0, -2.0, 0.0], [0.0, 0.0, 0.0, 1.0]], 0.0);
+// @clause the inverse of a negative uniform scaling exists and is two-sided (within 1e-6 per element)
+inverse_harness!(mat_inverse_negative_uniform_scale, [[-2.0, 0.0, 0.0, 0.0], [0.0, -2.0, 0.0, 0.0], [0.0, 0.0, -2.0, 0.0], [0.0, 0.0, 0.0, 1.0]], 1e-6);
 // @ob props=C09 tier=quick kind=B cfg=core-std timeout=1200
 // @fn Mat4x4::inverse ; Matrix::compose
 // @bound one concrete transform: the reflection swapping x and y, followed by translate(1, 2, 3) (determinant -1; needs a row exchange)
-// @clause the inverse of an axis-swapping reflection with translation exists and is two-sided, exactly
-inverse_harness!(mat_inverse_axis_swap_reflection, [[0.0, 1.0, 0.0, 1.0], [1.0, 0.0, 0.0, 2.0], [0.0, 0.0, 1.0, 3.0], [0.0, 0.0, 0.0, 1.0]], 0.0);
+// @clause the inverse of an axis-swapping reflection with translation exists and is two-sided (within 1e-6 per element)
+inverse_harness!(mat_inverse_axis_swap_reflection, [[0.0, 1.0, 0.0, 1.0], [1.0, 0.0, 0.0, 2.0], [0.0, 0.0, 1.0, 3.0], [0.0, 0.0, 0.0, 1.0]], 1e-6);
 // @ob props=C09 tier=quick kind=B cfg=core-std timeout=1200
 // @fn Mat4x4::inverse ; Matrix::compose
 // @bound one concrete transform: the cyclic axis permutation x->y->z->x (two row exchanges)
-// @clause the inverse of a cyclic axis permutation exists and is two-sided, exactly
-inverse_harness!(mat_inverse_cyclic_permutation, [[0.0, 0.0, 1.0, 0.0], [1.0, 0.0, 0.0, 0.0], [0.0, 1.0, 0.0, 0.0], [0.0, 0.0, 0.0, 1.0]], 0.0);
+// @clause the inverse of a cyclic axis permutation exists and is two-sided (within 1e-6 per element)
+inverse_harness!(mat_inverse_cyclic_permutation, [[0.0, 0.0, 1.0, 0.0], [1.0, 0.0, 0.0, 0.0], [0.0, 1.0, 0.0, 0.0], [0.0, 0.0, 0.0, 1.0]], 1e-6);
 // @ob props=C09 tier=quick kind=B cfg=core-std timeout=1200
 // @fn Mat4x4::inverse ; Matrix::compose
 // @bound one concrete transform: the integer shear x += 2y, y += 3z
-// @clause the inverse of an integer shear exists and is two-sided, exactly
-inverse_harness!(mat_inverse_integer_shear, [[1.0, 2.0, 0.0, 0.0], [0.0, 1.0, 3.0, 0.0], [0.0, 0.0, 1.0, 0.0], [0.0, 0.0, 0.0, 1.0]], 0.0);
+// @clause the inverse of an integer shear exists and is two-sided (within 1e-6 per element)
+inverse_harness!(mat_inverse_integer_shear, [[1.0, 2.0, 0.0, 0.0], [0.0, 1.0, 3.0, 0.0], [0.0, 0.0, 1.0, 0.0], [0.0, 0.0, 0.0, 1.0]], 1e-6);
 // @ob props=C09 tier=quick kind=B cfg=core-std timeout=1200
 // @fn Mat4x4::inverse ; Matrix::compose
 // @bound one concrete transform: the quarter turn about z as rotate_z(degs(90.0)) produces it in f32 (diagonal -4.371139e-8 instead of 0: a tiny non-zero pivot, condition number 1)
